@@ -66,6 +66,41 @@ func (c *hintCircuit) Define(api frontend.API) error {
 	return nil
 }
 
+// ---- range checks only: two circuits with the same number of checks and the same total width
+// but a different distribution of widths (what a gadget derives from aggregate figures must not
+// be remembered from one compilation to the next)
+type rcCircuit struct {
+	V      []frontend.Variable
+	widths []int
+}
+
+func newRc(widths []int) *rcCircuit {
+	return &rcCircuit{V: make([]frontend.Variable, len(widths)), widths: widths}
+}
+
+func (c *rcCircuit) Define(api frontend.API) error {
+	rc := rangecheck.New(api)
+	for i := range c.V {
+		rc.Check(c.V[i], c.widths[i])
+	}
+	return nil
+}
+
+func rcWidths(uniform bool) []int {
+	w := make([]int, 200)
+	for i := range w {
+		switch {
+		case uniform:
+			w[i] = 16
+		case i < 100:
+			w[i] = 15
+		default:
+			w[i] = 17
+		}
+	}
+	return w
+}
+
 // ---- lookup + rangecheck + cmp + selector
 type gadgetCircuit struct {
 	Idx  [5]frontend.Variable
@@ -295,6 +330,8 @@ func catalog(nSpecs int, specSeed func(i int) *circuits.Spec) []entry {
 		entry{name: "hints+println", field: ecc.BN254, r1cs: true, scs: true, newCirc: func() frontend.Circuit { return &hintCircuit{} }},
 		entry{name: "lookup+rangecheck+cmp+mux", field: ecc.BN254, r1cs: true, scs: true, newCirc: func() frontend.Circuit { return &gadgetCircuit{} }},
 		entry{name: "lookup+rangecheck+cmp+mux/bls12-377", field: ecc.BLS12_377, r1cs: true, scs: true, newCirc: func() frontend.Circuit { return &gadgetCircuit{} }},
+		entry{name: "rangecheck/200x16", field: ecc.BN254, r1cs: true, scs: true, newCirc: func() frontend.Circuit { return newRc(rcWidths(true)) }},
+		entry{name: "rangecheck/100x15+100x17", field: ecc.BN254, r1cs: true, scs: true, newCirc: func() frontend.Circuit { return newRc(rcWidths(false)) }},
 		entry{name: "emulated+multicommit", field: ecc.BN254, r1cs: true, scs: true, heavy: true, newCirc: func() frontend.Circuit { return &emuCircuit{} }},
 		entry{name: "defer-in-defer", field: ecc.BN254, r1cs: true, scs: true, newCirc: func() frontend.Circuit { return &deferCircuit{} }},
 		entry{name: "wire-query/GetWireConstraints(addMissing)", field: ecc.BN254, scs: true, newCirc: func() frontend.Circuit { return &wireQueryCircuit{} }},
